@@ -672,10 +672,6 @@ def enabled_ops(post, instances, maxgen, gens, late, svc=False, crash=False):
         ops.append((0.5, 'NodeStart', []))
     if post['pending']:
         ops.append((5.0 + 2 * len(post['pending']), 'Deliver', []))
-        if crash and post['tomb']:
-            # the node monitor acts between two file-system probes of the handler
-            for k in (1, 2, 3, 4, 5, 6, 7, 8, 10, 12, 14, 17, 20, 25):
-                ops.append((1.2, 'Meddle', [k]))
         if crash:
             # kill points inside the handler: configure makes 4 link/rename calls
             # (app.json, trace event, staged link, rename), terminate one
